@@ -19,6 +19,8 @@ type specEnv struct {
 	depth   int
 	lookupOld func(name string) (TV, bool) // entry-state values of variables, used inside old(...)
 	iterKey   string                       // heap key of the iterator position of the loop whose invariant is being translated
+	prevHeap   map[string]string            // heap at the head of the current iteration (step clauses)
+	lookupPrev func(name string) (TV, bool)
 }
 
 func (env *specEnv) VC() *VC {
@@ -584,6 +586,18 @@ func (env *specEnv) call(n *SCall) (TV, error) {
 		r, err := env.Term(n.Args[0])
 		env.heapAt, env.lookup = saved, savedL
 		return r, err
+	case "prev":
+		if err := argN(1); err != nil {
+			return TV{}, err
+		}
+		if env.prevHeap == nil || env.lookupPrev == nil {
+			return TV{}, fmt.Errorf("prev() is only meaningful in a loop step clause")
+		}
+		saved, savedL := env.heapAt, env.lookup
+		env.heapAt, env.lookup = env.prevHeap, env.lookupPrev
+		r, err := env.Term(n.Args[0])
+		env.heapAt, env.lookup = saved, savedL
+		return r, err
 	case "forall", "exists":
 		// forall(i, lo, hi, P)  or  forall(i, P)
 		id, ok := n.Args[0].(*SIdent)
@@ -749,11 +763,18 @@ func (env *specEnv) call(n *SCall) (TV, error) {
 		if n.Fn == "strord" {
 			return TV{fmt.Sprintf("(strord %s)", a.T), "Int", intT()}, nil
 		}
+		// comparison with a literal is by content, exactly as the engine encodes Go's s == "lit"
+		if lit, ok := n.Args[1].(*SStr); ok && len(lit.V) <= 64 && a.Sort == "Str" {
+			return TV{StrEqLit(a.T, lit.V), "Bool", nil}, nil
+		}
 		b, err := env.Term(n.Args[1])
 		if err != nil {
 			return TV{}, err
 		}
 		b = env.view(b)
+		if lit, ok := n.Args[0].(*SStr); ok && len(lit.V) <= 64 && b.Sort == "Str" {
+			return TV{StrEqLit(b.T, lit.V), "Bool", nil}, nil
+		}
 		return TV{fmt.Sprintf("(streq %s %s)", a.T, b.T), "Bool", nil}, nil
 	case "deref":
 		a, err := env.Term(n.Args[0])
